@@ -127,7 +127,7 @@ def crash_site(err):
     elif "terminate called" in err:
         kind = "terminate"
     frames = []
-    for m in re.finditer(r"#\d+ 0x[0-9a-f]+ in (.+?) (/repo/\S+?):(\d+)", err):
+    for m in re.finditer(r"#\d+ 0x[0-9a-f]+ in (.+?) (" + re.escape(vlib.REPO.rstrip("/")) + r"/\S+?):(\d+)", err):
         fn = _clean_fn(m.group(1))
         if fn and fn not in frames and not fn.startswith("std::") and not fn.startswith("_Z") and "operator" not in fn and "tag_invoke" not in fn:
             frames.append(fn)
